@@ -340,7 +340,8 @@ package reflect
 //@   requires p != nil && typeToSize[t] > 0 && len(b) >= typeToSize[t]
 //@   modifies M[p : p + storeSize(t)]
 //@   ensures n == typeToSize[t]
-//@   ensures c01_value: ((t == tBOOL || t == tBYTE) ==> M[p] == old(M[b.ptr]))
+//@   ensures c01_value: (t == tBYTE ==> M[p] == old(M[b.ptr])) && (t == tBOOL && old(M[b.ptr]) <= 1 ==> M[p] == old(M[b.ptr]))
+//@   ensures c03_bool: t == tBOOL ==> M[p] == (old(M[b.ptr]) == 1 ? 1 : 0)
 //@        && (t == tI16 ==> ld16(p) == old(R_u16(M, b.ptr)))
 //@        && (t == tI32 ==> ld32(p) == old(R_u32(M, b.ptr)))
 //@        && ((t == tI64 || t == tDOUBLE) ==> ld64(p) == old(R_u64(M, b.ptr)))
